@@ -31,10 +31,14 @@ def run(a, rep, TypesBuild, tref):
     names = enum_names(thorough)
     # results per (type, doc) under the non-exhaustive config, to compare listed inputs across configs
     listed_reser = {}
+    leaf_cases = {}
     for ci, ch, name, kind, shape, cname, cfg in tb.each_type():
         if kind not in ("enum", "union"):
             continue
-        if only and (only.get("type") != name or only.get("config") != cname):
+        if only and only.get("part") == "holder":
+            if name not in ("E", "Un") or only.get("config") != cname:
+                continue
+        elif only and (only.get("type") != name or only.get("config") != cname):
             continue
         if kind == "union" and shape is not None and not thorough and shape.depth > 0:
             continue  # quick: the unions over leaf shapes + the special families
@@ -72,6 +76,8 @@ def run(a, rep, TypesBuild, tref):
                     cases.append(("{\"type\":%s,%s:%s}" % (json.dumps(vn), json.dumps(vn), json.dumps(p)), "unlisted", vn))
                     if i < 6:
                         cases.append(("{%s:%s,\"type\":%s}" % (json.dumps(vn), json.dumps(p), json.dumps(vn)), "unlisted", vn))
+        if name in ("E", "Un"):
+            leaf_cases[(name, cname)] = cases
         rep.states += len(cases)
         resp = tb.probe(ci).ask({"ty": "%s:%s" % (cname, name), "op": "de", "docs": [c[0] for c in cases]})
         if "results" not in resp:
@@ -139,12 +145,99 @@ def run(a, rep, TypesBuild, tref):
                     else:
                         rep.outcome("unlisted:preserved")
         rep.sample(label, {"type": label, "config": cname, "documents": [c[0] for c in cases[:2]] + [c[0] for c in cases if c[1] == "unlisted"][:3]})
+    if not (only and only.get("part") != "holder"):
+        holders(a, rep, tb, tref, leaf_cases)
     tb.close()
     rep.bounds.update({"enum_names": len(names), "ill_formed_names": len(ILL_FORMED), "payloads": len(PAYLOADS), "unlisted_variant_names": len(UNLISTED_VARIANTS)})
     rep.rule = ("states = (enum / union type, configuration, document): enums with 1 / 2 / 3 values and unions with 0 / 1 / 2 / 3 variants (incl. one named `unknown`) plus one union per leaf shape; "
                 "inputs = every listed value / variant document, unlisted enum names over [A-Z0-9_] up to the length bound and multi-word names, ill-formed names, unlisted variant names x JSON payloads in both member orders; "
                 "through the client and server deserializers and through `any`, under the default and the exhaustive configuration")
     rep.assumptions.append("an enum value named UNKNOWN and an empty enum are rejected by the Conjure compiler and are not enumerated")
+
+
+def _embed(t, leaf, doc, key_text):
+    """the document of shape `t` holding `doc` (JSON text) at its only reference to `leaf`;
+    None when the shape holds anything else that needs a value"""
+    k = t["type"]
+    if k == "reference":
+        return doc if t["reference"]["name"] == leaf else None
+    if k == "optional":
+        return _embed(t["optional"]["itemType"], leaf, doc, key_text)
+    if k in ("list", "set"):
+        inner = _embed(t[k]["itemType"], leaf, doc, key_text)
+        return None if inner is None else "[%s]" % inner
+    if k == "map":
+        kt, vt = t["map"]["keyType"], t["map"]["valueType"]
+        if kt["type"] == "primitive" and kt["primitive"] == "STRING":
+            inner = _embed(vt, leaf, doc, key_text)
+            return None if inner is None else "{\"k\":%s}" % inner
+        if kt["type"] == "reference" and kt["reference"]["name"] == leaf and key_text is not None and vt["type"] == "primitive" and vt["primitive"] == "STRING":
+            return "{%s:\"v\"}" % key_text
+    return None
+
+
+def holders(a, rep, tb, tref, leaf_cases):
+    """the same inputs one level (and more) down: every generated object {f: S}, union {v: S}
+    and alias = S whose shape S holds the enum E / the union Un and nothing else — the value sits
+    in a field, an optional field, a list / set item, a map value or (enums) a map key. Oracle by
+    acceptance and re-serialization only (the holder's Debug text does not classify)."""
+    only = a.replay_case
+    for ci, ch, name, kind, shape, cname, cfg in tb.each_type():
+        if shape is None or kind not in ("object", "union", "alias"):
+            continue
+        if only and (only.get("type") != name or only.get("config") != cname):
+            continue
+        for leaf in ("E", "Un"):
+            cases = []
+            for text, cls, nm in leaf_cases.get((leaf, cname), []):
+                inner = _embed(shape.ir, leaf, text, text if leaf == "E" else None)
+                if inner is None:
+                    break
+                doc = {"object": "{\"f\":%s}", "union": "{\"type\":\"v\",\"v\":%s}", "alias": "%s"}[kind] % inner
+                cases.append((doc, cls, nm))
+            if not cases:
+                continue
+            rep.states += len(cases)
+            docs = [c[0] for c in cases]
+            resp = tb.probe(ci).ask({"ty": "%s:%s" % (cname, name), "op": "de", "docs": docs})
+            if "results" not in resp:
+                rep.cap("probe error for %s: %s" % (name, resp))
+                continue
+            sresp = tb.probe(ci).ask({"ty": "%s:%s" % (cname, name), "op": "smile_raw", "docs": docs})
+            sres = sresp.get("results") or [{}] * len(cases)
+            label = "%s{%s}" % (kind, shape.text)
+            for (text, cls, nm), res, sm in zip(cases, resp["results"], sres):
+                res = dict(res)
+                if "skip" not in sm and not _wide(text):
+                    res["C"], res["S"] = sm.get("c"), sm.get("s")
+                for side in ("c", "s", "C", "S"):
+                    r = res.get(side)
+                    if r is None:
+                        continue
+                    rep.evaluations += 1
+                    rep.transitions += 1
+                    case = {"type": name, "config": cname, "doc": text, "side": side, "part": "holder"}
+                    where = {"c": "client", "s": "server", "C": "smile-client", "S": "smile-server"}[side]
+                    sig = lambda k: "C10|holder|%s|%s|%s|%s" % (k, where, label, "exhaustive" if cfg["exhaustive"] else "default")
+                    if r.get("panic"):
+                        rep.violation(sig("panic"), "%s panicked on %s" % (label, text), case)
+                    elif cls == "ill-formed":
+                        if r["ok"]:
+                            rep.violation(sig("ill-formed-name-accepted"), "%s [%s]: %s (ill-formed enum name inside) is accepted (%s)" % (label, cname, text, where), case)
+                        else:
+                            rep.outcome("holder:ill-formed:rejected")
+                    elif cls == "unlisted" and cfg["exhaustive"]:
+                        if r["ok"]:
+                            rep.violation(sig("unlisted-accepted-when-exhaustive"), "%s [%s, exhaustive]: %s (unlisted %s inside) is accepted (%s)" % (label, cname, text, nm, where), case)
+                        else:
+                            rep.outcome("holder:unlisted:rejected-when-exhaustive")
+                    elif not r["ok"]:
+                        rep.violation(sig("%s-rejected" % cls), "%s [%s]: %s (%s %s inside) is rejected (%s): %s" % (label, cname, text, cls, nm, where, r.get("err")), case)
+                    elif side in ("c", "s") and not _json_eq(text, r.get("reser") or "null"):
+                        rep.violation(sig("%s-not-preserved" % cls), "%s [%s]: %s re-serializes to %s (%s)" % (label, cname, text, r.get("reser"), where), case)
+                    else:
+                        rep.outcome("holder:%s:preserved" % cls)
+            rep.sample("holder:" + label, {"type": label, "config": cname, "documents": docs[:1] + [c[0] for c in cases if c[1] == "unlisted"][:2]})
 
 
 def _wide(text):
